@@ -18,6 +18,6 @@ python3 - <<PY
 import json
 m=json.load(open('$OUT/meta.json'))
 m['confirmed_by_me']=dict(demo_fails_with_patch=$RC_WITH!=0, suite_passes=$RC_SUITE==0, demo_passes_without_patch=$RC_WITHOUT==0)
-m['batch']=2
+m['batch']=int('${BATCH:-2}')
 json.dump(m,open('$DST/meta.json','w'),indent=1)
 PY
